@@ -9,7 +9,7 @@
              decompressible file contents.
    No proofs here. *)
 From Coq Require Import List ZArith NArith Bool.
-From NSQV Require Import model.Judge model.FileOS model.FileLogger.
+From NSQV Require Import model.Judge model.FileOS model.FileLogger model.Strftime.
 Import ListNotations.
 Open Scope bool_scope.
 Open Scope N_scope.
@@ -222,13 +222,22 @@ Definition judge_black (b : black_case) : N :=
                                | None => false end) (b_pre b) in
   verdict true (m1 && m2).
 
+(* one evaluation of the real strftime() in UTC; formats outside the modelled class
+   (alphanumeric literal characters) are only recorded *)
+Record strf_case := mkStrf { s_fmt : bytes; s_t : Z; s_got : bytes }.
+
+Definition judge_strf (x : strf_case) : N :=
+  verdict (match strftime (s_fmt x) (s_t x) with Some y => bytes_eqb y (s_got x) | None => true end) true.
+
 Inductive case :=
+| Strf (x : strf_case)
 | Run (r : run_case)
 | Fmt (m : fmt_case)
 | Black (b : black_case).
 
 Definition judge (c : case) : N :=
   match c with
+  | Strf x => judge_strf x
   | Run r => judge_run r
   | Fmt m => judge_fmt m
   | Black b => judge_black b
